@@ -983,6 +983,81 @@ func unlimitedFirstUse(res *vkit.Result, rounds int) {
 	}
 }
 
+// factoryProducts: with rps-per-instance the pool's config-decoded factory is asked for one
+// schedule per instance. For profiles written as lists (composites) every product must be a
+// schedule of its own: what is drawn from one must not show in the Left of another, and each
+// must hand out its full number of tokens.
+func factoryProducts(res *vkit.Result) {
+	profiles := map[string][]any{
+		"once3,pause,once2": {map[string]any{"type": "once", "times": 3}, map[string]any{"type": "const", "ops": 0, "duration": "50ms"}, map[string]any{"type": "once", "times": 2}},
+		"const,line":        {map[string]any{"type": "const", "ops": 20, "duration": "200ms"}, map[string]any{"type": "line", "from": 10, "to": 30, "duration": "200ms"}},
+		"once1":             {map[string]any{"type": "once", "times": 4}},
+	}
+	for name, conf := range profiles {
+		c := map[string]any{"rps": name, "rps-per-instance": true}
+		pc, err := vkit.DecodedPool(conf, nil, true)
+		if err != nil {
+			res.Violate("C02/factory-products/rejected", fmt.Sprintf("valid rps list rejected: %v", err), c)
+			continue
+		}
+		var prods []core.Schedule
+		bad := ""
+		for i := 0; i < 4 && bad == ""; i++ {
+			s, err := pc.NewRPSSchedule()
+			if err != nil {
+				bad = fmt.Sprintf("product %d: %v", i, err)
+				break
+			}
+			prods = append(prods, s)
+		}
+		if bad == "" {
+			total := prods[0].Left()
+			t0 := time.Now()
+			for i, s := range prods {
+				if l := s.Left(); l != total {
+					bad = fmt.Sprintf("product %d announces Left() = %d before anything was drawn from it, product 0 announced %d", i, l, total)
+					break
+				}
+				pv, panicked := func() (v any, p bool) {
+					defer func() {
+						if r := recover(); r != nil {
+							v, p = r, true
+						}
+					}()
+					s.Start(t0)
+					// draw i+1 tokens from product i, then all products must still be exact
+					for k := 0; k <= i && k < total; k++ {
+						if _, ok := s.Next(); !ok {
+							bad = fmt.Sprintf("product %d refused token %d of %d", i, k, total)
+						}
+					}
+					return nil, false
+				}()
+				if panicked {
+					bad = fmt.Sprintf("product %d: panic %v", i, pv)
+				}
+				for j, o := range prods {
+					want := total
+					if j <= i {
+						want = total - min(j+1, total)
+					}
+					if l := o.Left(); bad == "" && l != want {
+						bad = fmt.Sprintf("after drawing %d tokens from product %d, product %d says Left() = %d, want %d (of %d)", i+1, i, j, l, want, total)
+					}
+				}
+				if bad != "" {
+					break
+				}
+			}
+		}
+		if bad != "" {
+			res.Violate("C02/factory-products/left", "schedules produced by one config-decoded factory: "+bad, c)
+		}
+		res.Count("factory_products", int64(len(prods)))
+		res.Eval(vkit.JSON(c), true)
+	}
+}
+
 func main() {
 	if vkit.IsChild() {
 		child()
@@ -1053,6 +1128,7 @@ func main() {
 	vkit.CheckRaceLog(res, "C02")
 	shortUnlimited(res, vkit.N(400, 8000))
 	unlimitedFirstUse(res, vkit.N(3000, 30000))
+	factoryProducts(res)
 	if res.Counter("hook_hits/next:after-runlock") == 0 || res.Counter("hook_hits/left:after-runlock") == 0 || res.Counter("controlled_interleavings") < 50 {
 		res.Inconclusive(true, "yield hook not reached or too few controlled interleavings (is the verif tag on?)")
 	}
